@@ -270,6 +270,14 @@ def write_replay(pid, seed, k, payload):
     return p
 
 
+def manifest_note(pid):
+    try:
+        import mk_manifest
+        return [mk_manifest.TEXT[pid][1]]
+    except Exception:
+        return []
+
+
 def load_known():
     p = os.path.join(ROOT, 'known_findings.json')
     if os.path.exists(p): return json.load(open(p))
@@ -470,7 +478,7 @@ def main():
             'valgrind_ct_runs': ct_runs,
             'notes': notes,
         },
-        'assumptions': cfg.get('assumptions', []),
+        'assumptions': cfg.get('assumptions', []) + manifest_note(pid),
         'wall_s': round(time.time() - t0, 2),
         'violations': len(violations),
     }
